@@ -180,4 +180,38 @@ theorem C11_rcpt_exact_or_refused (s : S) (arg : Bytes) :
         | se c e m => exact ⟨[Ev.w _], by simp [hr, write, emit, hcl, pe, pc]; rfl, by simp⟩
         | er m => exact ⟨[Ev.w _], by simp [hr, write, emit, hcl, pe, pc]; rfl, by simp⟩
 
+/-! ### a keyword followed by `=` and nothing (fixed in parse.go: `esmtp-value` is `1*`) -/
+
+theorem foldl_argFail (f : Option (List (Bytes × Bytes)) → Bytes → Option (List (Bytes × Bytes)))
+    (hf : ∀ a, f none a = none) (l : List Bytes) : l.foldl f none = none := by
+  induction l with
+  | nil => rfl
+  | cons a l ih => simp only [List.foldl_cons, hf, ih]
+
+/-- **C11_empty_value_refused (parser).**  A parameter string one of whose space-separated fields is `KEYWORD=` — an equals sign
+    with no value behind it — does not parse, wherever the field stands and whatever the keyword is: `SMTPUTF8=` is not the
+    flag `SMTPUTF8`. -/
+theorem C11_empty_value_unparsable (s arg k : Bytes) (hmem : arg ∈ fields s) (hsplit : splitByte arg 61 = [k, []]) :
+    parseArgs s = none := by
+  obtain ⟨l1, l2, hl⟩ := List.append_of_mem hmem
+  unfold parseArgs
+  rw [hl, List.foldl_append, List.foldl_cons]
+  generalize List.foldl _ (some []) l1 = acc
+  cases acc with
+  | none => exact foldl_argFail _ (fun _ => rfl) l2
+  | some m =>
+    simp only [hsplit, List.isEmpty_nil, if_true]
+    exact foldl_argFail _ (fun _ => rfl) l2
+
+/-- **C11_empty_value_refused.**  … and so a MAIL or RCPT line carrying such a field is not decoded, hence (by
+    `C11_mail_refused_before_backend`) answered 5xx without the backend. -/
+theorem C11_empty_value_refused (cfg : Cfg) (arg a frm rest field k : Bytes)
+    (hc : cutPrefixFold arg "FROM:".b = some a) (hp : parseReversePath (trimSpace a) = some (frm, rest))
+    (hmem : field ∈ fields rest) (hsplit : splitByte field 61 = [k, []]) :
+    mailDecode cfg arg = none := by
+  simp only [mailDecode, hc, hp, C11_empty_value_unparsable rest field k hmem hsplit]
+
+example : mailDecode { utf8 := true } "FROM:<a@b> SMTPUTF8=".b = none := by decide +kernel
+example : (mailDecode { utf8 := true } "FROM:<a@b> SMTPUTF8".b).isSome = true := by decide +kernel
+
 end SmtpV.Props.C11
